@@ -385,6 +385,22 @@ Proof.
   intros H. unfold lex. apply lex_loop_bounds; try discriminate; try congruence. reflexivity.
 Qed.
 
+(* string(runes): every rune is written as at least one byte; concatenation commutes *)
+Lemma encode_rune_nonempty r : (1 <= length (encode_rune r))%nat.
+Proof.
+  unfold encode_rune.
+  destruct (r <? 128); [cbn; lia|]. destruct (r <? 2048); [cbn; lia|].
+  destruct (((55296 <=? r) && (r <=? 57343)) || (1114111 <? r)); [cbn; lia|].
+  destruct (r <? 65536); cbn; lia.
+Qed.
+Lemma encode_length rs : (length rs <= length (utf8_encode rs))%nat.
+Proof.
+  induction rs as [|r rs IH]; [cbn; lia|]. unfold utf8_encode in *. cbn [flat_map length].
+  rewrite app_length. pose proof (encode_rune_nonempty r). lia.
+Qed.
+Lemma encode_app a b : utf8_encode (a ++ b) = utf8_encode a ++ utf8_encode b.
+Proof. unfold utf8_encode. apply flat_map_app. Qed.
+
 Lemma parse_loop_total fuel : forall s acc, (length s <= fuel)%nat ->
   (exists p, parse_loop fuel s acc = Ok p) \/ parse_loop fuel s acc = Err 1.
 Proof.
@@ -401,20 +417,23 @@ Proof.
     assert (Hs' : (length (skipn n s) <= f)%nat) by (rewrite skipn_length; lia).
     destruct typ.
     + apply IH, Hs'.
-    + destruct (field_of (firstn n s)); [apply IH, Hs' | now right].
+    + destruct (field_of (utf8_encode (firstn n s))); [apply IH, Hs' | now right].
     + specialize (Hh eq_refl).
-      replace (Nat.leb 8 (length (firstn n s))) with true
-        by (symmetry; apply Nat.leb_le; rewrite firstn_length; lia).
+      replace (Nat.leb 8 (length (utf8_encode (firstn n s)))) with true.
+      2:{ symmetry; apply Nat.leb_le. pose proof (encode_length (firstn n s)) as E.
+          rewrite firstn_length in E. lia. }
       cbn [bind]. apply IH, Hs'.
 Qed.
 
-(* logger.New / parse: terminates on every format (never out of fuel), never
-   panics; the only failures are "invalid field" and "empty log format" *)
+(* logger.New / parse: terminates on every format string - any bytes, valid UTF-8 or not -
+   (never out of fuel), never panics; the only failures are "invalid field" and "empty log
+   format" *)
 Theorem new_logger_total format :
   (exists p, new_logger format = Ok p /\ p <> []) \/ new_logger format = Err 1 \/ new_logger format = Err 2.
 Proof.
-  unfold new_logger, parse.
-  destruct (parse_loop_total (length format) format [] (le_n _)) as [[p H]|H]; rewrite H; cbn [bind].
+  unfold new_logger, parse. cbv zeta.
+  destruct (parse_loop_total (length (utf8_decode format)) (utf8_decode format) [] (le_n _)) as [[p H]|H];
+    rewrite H; cbn [bind].
   - destruct p; [right; now right | left; eexists; split; [reflexivity | discriminate]].
   - right; now left.
 Qed.
